@@ -4,39 +4,46 @@ import itertools
 
 CLAIMED = True
 LEVEL = 'proof'
-LEVEL_TEXT = ('Proof: 21 Coq theorems over the Gallina models of Triangle::points()/bounding_box() (scanline iterator, Scanline::extend, '
-              'bresenham_intersection, sorted_yx, sorted_clockwise, area_doubled as written) and of the Polyline Points iterator (the nth(1) recursion '
-              'step by step). Proved for ALL triangles with coordinates within +-8192: the points do not depend on the vertex order (same list); every '
-              'lattice point of the closed mathematical triangle is yielded (non-zero area; colinear/coincident vertices: exactly the Bresenham line between '
-              'the extreme vertices); every yielded point is in the closed triangle or is a Bresenham pixel of a sorted edge, hence within HALF a pixel of an '
-              'edge segment; the Bresenham lines between the sorted vertices are part of the fill, two triangles on one edge share that line and leave no gap; '
-              'points() is strictly row-major inside the bounding box; for ALL polylines (0, 1 or more vertices, repeats, reversals, any translate): points() = '
-              'first segment line ++ every further segment line without its first point. The 1px-outline clause has no theorem (it runs through the thick-stroke '
-              'code) and is compared exhaustively. Model and code are tied by running both on ALL 117 649 ordered vertex triples of a 7x7 grid and on random inputs, on every run.')
+LEVEL_TEXT = ('Proof for 6 of the 7 clauses (24 Coq theorems); clause 6 (1px triangle outline = its three edge lines) has no theorem in this part and is '
+              'searched. Models: Triangle::points()/bounding_box() (scanline iterator, Scanline::extend, bresenham_intersection, sorted_yx, sorted_clockwise, '
+              'area_doubled as written), the Polyline Points iterator (the nth(1) recursion step by step), and Styled<Triangle> pixels()/draw() for stroke width 0 '
+              '(step-by-step pixel iterator over the un-fused scanline iterator). Proved for ALL triangles with coordinates within +-8192, for Triangle::points() '
+              'AND for the styled fill (pixels() = the fill_solid writes of draw() = points() in the fill colour): the points do not depend on the vertex order (same list); '
+              'every lattice point of the closed mathematical triangle is yielded (colinear/coincident vertices: exactly the Bresenham line between the extreme vertices); '
+              'every yielded point is in the closed triangle or a Bresenham pixel of a sorted edge, hence within HALF a pixel of an edge segment; the lines between the '
+              'sorted vertices are part of the fill, two triangles on one edge share that line and leave no gap; row-major, inside the bounding box. For ALL polylines '
+              '(0, 1 or more vertices, repeats, reversals, any translate): points() and the 1px styled pixels()/draw() = first segment line ++ every further line without its first point. '
+              'NOT covered by a theorem: triangles with a stroke of width >= 1 (clause 6, and the fill between the strokes for fill + stroke): search suites p_tri_outline / p_tri_cover '
+              '(clause 1 at full strength for widths 0, 1 and Outside alignment; for wider Inside/Center strokes for the lattice points farther than width + 1 from every edge).')
 LEVEL_NOTE = ('Trusted: Coq kernel, extraction, the OCaml/Rust drivers; the hand-written model is validated by differential testing, not proved equal to '
-              'the Rust code. The thin-line lemmas (closed form of Bresenham) are a copy of builder "line"\'s Proofs/Line.v (Proofs/TriLine.v). '
-              'Arithmetic is unbounded Z; theorems carry tri_ok (+-8192), the range in which area_doubled/contains stay inside i32. '
-              'tri_outline_w1 is OPEN (see PARTIAL).')
+              'the Rust code. Thin-line lemmas: Proofs/Line.v of builder "line". Arithmetic is unbounded Z; theorems carry tri_ok (+-8192), the range in which '
+              'area_doubled/contains stay inside i32 (C19_tri_range_no_overflow). tri_outline_w1 is OPEN here (partial statement in Properties/C19_join.v of builder "join").')
 RULE = ('correspondence: Triangle::points() / bounding_box() for ALL 117 649 ordered vertex triples of a 7x7 grid (colinear and coincident vertices '
-        'included) + random triples up to +-40 (flat/thin/axis-parallel shares) and small triangles at the range edge +-8192; '
-        'Polyline::points() / bounding_box() (with translate, and translate twice) for ALL vertex lists of length 0..=4 over a 3x3 grid and 0..=6 over 4 points '
-        '(thorough: 0..=4 over 4x4, 5 over 3x3, 6 over 6 points) + random lists of up to 6 vertices with forced repeats and reversals, range edge +-2^20. '
-        'A case is non-trivial when the model result is not empty; distinct = distinct case lines. '
-        'search (implementation only, exact integer reference): every clause of C19: p_tri on ALL vertex triples of the 7x7 grid (each tried in all 6 '
-        'orders: interior coverage by the closed cross-product test, within one pixel by exact squared distance to the edge segments, order independence '
-        'of points() and bounding_box(), sorted-edge lines inside the fill, row-major, no duplicates, inside the box) + random larger ones; p_tri_pair on ALL '
-        'quadruples a<b,c,d of a 4x4 grid (thorough 5x5) as two triangles sharing edge ab (same edge pixels, no gap, no hole along the edge); p_tri_outline on ALL '
-        'ordered triples of a 6x6 grid (thorough 7x7): 1px Styled<Triangle> pixels()/draw() = three lines between clockwise-ordered vertices; p_tri_fill: '
-        'fill-only styled triangle (3 alignments, with/without stroke colour, width 0) = points(); p_poly: 1px Styled<Polyline> pixels()/draw() = segment '
-        'lines with joints once, on the same polyline lists.')
-EXHAUSTIVE = {'quick': True, 'thorough': True}
+        'included) + random triples up to +-40 (flat/thin/axis-parallel shares), 40 up to +-300, 100 long slivers (edges up to 4000 px, inside +-8192) and small '
+        'triangles at the range edge +-8192; Styled<Triangle> width 0 pixels() and fill_solid calls (tri_styled_w0) on all triples (up to order) of a 5x5 grid x 12 '
+        'fill/stroke-colour/alignment combinations + random; Polyline::points() / bounding_box() (with translate, and translate twice) for ALL vertex lists of length '
+        '0..=4 over a 3x3 grid and 0..=6 over 4 points (thorough: 0..=4 over 4x4, 5 over 3x3, 6 over 6 points) + random lists of up to 6 vertices with forced '
+        'repeats and reversals, range edge +-2^20. A case is non-trivial when the model result is not empty; distinct = distinct case lines. '
+        'search (implementation only, exact integer reference): p_tri on ALL vertex triples of the 7x7 grid, each in all 6 orders (interior coverage by the closed '
+        'cross-product test, within one pixel by exact squared distance, order independence of points() and bounding_box(), sorted-edge lines inside the fill, '
+        'row-major, no duplicates, inside the box) + random up to +-60 + 60 long slivers; p_tri_pair on ALL quadruples a<b,c,d of a 4x4 grid (thorough 5x5) as two '
+        'triangles sharing edge ab; p_tri_outline (1px stroke = three edge lines, pixels() and draw()): Center on ALL ordered triples of a 6x6 grid, Inside and Outside '
+        'on ALL ordered triples of a 5x5 grid (thorough: 7x7 for all three) + random/slivers with random alignment; p_tri_fill (width 0, 3 alignments, with/without stroke colour = points()) '
+        'on all triples of a 6x6 grid; p_tri_cover (fill + stroke: every lattice point of the closed triangle painted, painted pixels near the triangle, pixels() = draw()) on all triples '
+        '(up to order) of a 6x6 grid x widths 1,2 (thorough 1..4) x 3 alignments + fill-only / stroke-only + random widths 0..12 (clause 1 in full for widths 0, 1 and Outside, '
+        'beyond the stroke band otherwise); p_poly on the same polyline lists.')
+EXHAUSTIVE = {'quick': False, 'thorough': False}   # finite grids are swept completely (see RULE), the domain of the property is not finite
 ASSUMPTIONS = ['triangle vertex coordinates within +-8192 (tri_ok): the range in which the i32 products of area_doubled()/contains() and the bounding-box '
-               'arithmetic equal the unbounded model; polyline theorems need no range (Points only adds coordinates; the Bresenham error terms fit within +-2^28, C17)']
+               'arithmetic equal the unbounded model (C19_tri_range_no_overflow)',
+               'polylines: the theorems are about the unbounded model; `vertex + translate` is i32 in the code (polyline/points.rs:31,57) and the Bresenham error '
+               'terms of a segment need |coordinates| <= 2^28 (C17 line_ok): the tie is claimed for |vertex| + |translate| <= 2^28 (correspondence up to +-2^20)']
 TRUSTED = ['modelled, not verified: Iterator::nth(1) = next() twice with early None; Range<i32>::is_empty / RangeInclusive::contains; '
-           'Rectangle::rows() (C16 model); `triangle.is_collapsed()` is never reached for stroke width 0 (scanline_intersections.rs:46)',
-           'Proofs/TriLine.v is a verbatim copy of branch wip-line Proofs/Line.v (closed form of the Bresenham line), compiled and audited here']
-PARTIAL = ['tri_outline_w1 (the 1px outline is the union of the three Bresenham lines between the clockwise-ordered vertices): no theorem, it runs through '
-           'ThickSegment/LineJoin with width 1; compared by p_tri_outline on all ordered triples of a 6x6 (thorough 7x7) grid']
+           'Rectangle::rows() (C16 model); DrawTarget::fill_solid(area, c) writes c at every point of area (C01a/C03 are about that)']
+PARTIAL = ['tri_outline_w1 (clause 6: the 1px outline is the union of its three edge lines, rasterised between the clockwise-ordered vertices; colinear vertices with '
+           'Inside alignment: between the (y,x)-sorted vertices): no theorem in this part (C19_join_tri_outline_w1_partial of the join part covers the three edge scanlines, '
+           'not their merge); compared by p_tri_outline for all three alignments',
+           'clause 1 for triangles with fill AND a stroke of width >= 1: no theorem (thick-stroke pipeline); searched by p_tri_cover (full clause for widths 0, 1 and Outside alignment; '
+           'wider Inside/Center strokes: lattice points farther than width + 1 from every edge; see FINDINGS-C19.md "observations outside the property")']
 
 PTS3 = [(x, y) for y in range(3) for x in range(3)]
 PTS4 = [(0, 0), (2, 1), (1, 2), (-1, 3)]     # 4 points in general position (steep, shallow and diagonal segments)
@@ -90,6 +97,22 @@ def edge_tri(rng):
     return tuple((s if i % 2 == 0 else t) * (8192 - rng.randrange(0, 25)) for i in range(6))
 
 
+def long_thin_tri(rng, L=4000, off=4000):
+    """long shallow / steep slivers (few rows or columns, edges thousands of pixels long) anywhere within +-8192"""
+    x, y = rng.randrange(-off, off + 1), rng.randrange(-off, off + 1)
+    l = rng.randrange(L // 4, L + 1) * rng.choice([-1, 1])
+    h1, h2 = rng.randrange(-6, 7), rng.randrange(-6, 7)
+    m = rng.randrange(-20, abs(l) + 21) * (1 if l > 0 else -1)
+    v = [(x, y), (x + l, y + h1), (x + m, y + h2)]
+    if rng.random() < 0.5:
+        v = [(b, a) for a, b in v]
+    rng.shuffle(v)
+    return (*v[0], *v[1], *v[2])
+
+
+STYLES_W0 = [(f, s, a) for f in (0, 1) for s in (0, 1) for a in (0, 1, 2)]
+
+
 def rnd_poly(rng, maxn=6, m=30):
     n = rng.randrange(0, maxn + 1)
     vs = []
@@ -130,6 +153,20 @@ def cases(tier, rng):
         t = edge_tri(rng)
         yield J('tri_points', *t)
         yield J('tri_bbox', *tuple(rng.randrange(-8192, 8193) for _ in range(6)))
+    # size reach: medium triangles up to +-300 and long slivers with edges up to 4000 pixels inside +-8192
+    for _ in range(40 if tier == 'quick' else 400):
+        yield J('tri_points', *tuple(rng.randrange(-300, 301) for _ in range(6)))
+    for _ in range(100 if tier == 'quick' else 1000):
+        yield J('tri_points', *long_thin_tri(rng))
+    # the styled fill (Model/Tristyled.v tri_styled_pixels_w0, cited by C19_tri_styled_fill_is_points): pixels() and the
+    # fill_solid calls of draw() for stroke width 0, every fill / stroke-colour / alignment combination
+    for k, t in enumerate(grid_multisets(5)):
+        f, sc, al = STYLES_W0[k % 12]
+        yield J('tri_styled_w0', *t, f, sc, al)
+        if k % 3 == 0:
+            yield J('tri_styled_w0_draw', *t, 1, sc, al)
+    for _ in range(n // 3):
+        yield J('tri_styled_w0', *rnd_tri(rng), rng.randrange(2), rng.randrange(2), rng.randrange(3))
     # polylines
     lists = list(poly_lists(PTS3, 4)) + list(poly_lists(PTS4, 6))
     if tier != 'quick':
@@ -160,15 +197,30 @@ def search(tier, rng):
         yield J('p_tri', *t)
     for t in grid_multisets(6):
         yield J('p_tri_fill', *t)
+    # 1px outline: Center on all ordered triples; Inside / Outside on all ordered triples of a smaller grid (thorough: same grid)
     for t in (grid_triples(6) if tier == 'quick' else grid_triples(7)):
-        yield J('p_tri_outline', *t)
+        yield J('p_tri_outline', *t, 1)
+    for t in (grid_triples(5) if tier == 'quick' else grid_triples(7)):
+        yield J('p_tri_outline', *t, 0)
+        yield J('p_tri_outline', *t, 2)
+    # fill + stroke: every lattice point of the closed triangle is painted (clause 1 at Styled::pixels()/draw())
+    for k, t in enumerate(grid_multisets(6)):
+        for w in ((1, 2) if tier == 'quick' else (1, 2, 3, 4)):
+            for al in (0, 1, 2):
+                yield J('p_tri_cover', w, al, 1, 1, *t)
+        yield J('p_tri_cover', 1 + k % 4, k % 3, 1, 0, *t)
+        yield J('p_tri_cover', 1 + k % 4, (k // 3) % 3, 0, 1, *t)
     n = 2500 if tier == 'quick' else 40000
     for _ in range(n):
         t = rnd_tri(rng, 60)
         yield J('p_tri', *t)
         if rng.random() < 0.3:
             yield J('p_tri_fill', *rnd_tri(rng, 40))
-        yield J('p_tri_outline', *rnd_tri(rng, 60))
+        yield J('p_tri_outline', *rnd_tri(rng, 60), rng.randrange(3))
+        yield J('p_tri_cover', rng.choice([0, 1, 1, 2, 3, 4, rng.randrange(0, 13)]), rng.randrange(3), 1, rng.choice([1, 1, 1, 0]), *rnd_tri(rng, 40))
+    for _ in range(60 if tier == 'quick' else 600):
+        yield J('p_tri', *long_thin_tri(rng))
+        yield J('p_tri_outline', *long_thin_tri(rng, 1500), rng.randrange(3))
     for _ in range(n // 10):
         yield J('p_tri', *edge_tri(rng))
         off = (rng.choice([-1, 1]) * rng.randrange(900, 1000), rng.choice([-1, 1]) * rng.randrange(900, 1000))
